@@ -17,7 +17,17 @@
 //! "Bytes that matter" for a signed asset = positions whose single-byte alteration makes a clean read not Valid
 //! (computed exhaustively with plain cursors, on demand); for the source of `sign` = every byte.
 //!
+//! XMP: the quick tier includes XMP-bearing variants of the formats (hand-built jpeg-xmp / png-xmp with several properties
+//! and non-UUID instance/document ids; for the other formats the packet the SDK's own handler embeds, with the remote
+//! reference renamed and the ids replaced, same length) and the operations that CONSULT the XMP: `read-remote` (an asset
+//! with nothing but a remote-manifest reference, fetch disabled: undisturbed outcome Err(RemoteManifestUrl(url))),
+//! `sign` / `sign-remote` of an XMP-bearing source (the manifest's instance id comes from the source XMP; the ids and the
+//! XMP packet of the output are part of the compared result). Violation keys name the format FAMILY (png-xmp -> png).
+//!
 //! Mutants caught (mutant_run, quick tier):
+//!   /tmp/seed-C35 (png_io read_string seeks back by the requested instead of the returned size after a short read)
+//!       -> VIOLATION  keys `chunking-changes-result op=read-remote got=Err(JumbfNotFound) fmt=png …`,
+//!          `chunking-changes-result op=sign|sign-remote|ingredient got=Ok(Valid) fmt=png …`
 //!   C35-read-exact-to-read.diff   ReaderUtils::read_to_vec uses one `read` where it needs to read exactly n bytes
 //!       -> VIOLATION  new keys `chunking-changes-result op=read got=Err(JumbfParseError) fmt=png|tiff|mp4|heic …`
 //! Findings of this check on the unchanged tree (see the final report of group G): format sniffing with a single read
@@ -43,6 +53,13 @@ use std::{
 const DEF: &str = r#"{"title":"t","claim_generator_info":[{"name":"kit","version":"1"}]}"#;
 const ING: &str = r#"{"title":"i","relationship":"componentOf"}"#;
 const CHUNKS: [usize; 5] = [1, 2, 3, 7, 64];
+const REMOTE_URL: &str = "https://verif.invalid/kit/manifest.c2pa";
+/// identifiers the kit's XMP variants carry: deliberately not UUID-shaped, so the canonical report keeps them
+const XMP_IID: &str = "xmp.iid:kit-fixed-instance-id-00000000000000";
+const XMP_DID: &str = "xmp.did:kit-fixed-document-id-00000000000000";
+/// what the SDK's minimal XMP packet carries (same lengths as the two above)
+const MIN_IID: &str = "xmp.iid:cb9f5498-bb58-4572-8043-8c369e6bfb9b";
+const MIN_DID: &str = "xmp.did:cb9f5498-bb58-4572-8043-8c369e6bfb9b";
 static LIM: gutil::Limiter = gutil::Limiter::new(2);
 
 #[derive(Clone, Debug, PartialEq, Eq, PartialOrd, Ord)]
@@ -99,6 +116,11 @@ enum OpKind {
     Read,
     ReadDetect,
     Ingredient,
+    /// read of an asset that carries no manifest, only a remote-manifest reference in its XMP (fetch disabled):
+    /// the undisturbed outcome is Err(RemoteManifestUrl(url)) and it is the XMP reader of the handler that decides it
+    ReadRemote,
+    /// sign (embedded manifest) with a remote URL: the handler must update the existing XMP packet
+    SignRemote,
 }
 
 impl OpKind {
@@ -108,6 +130,8 @@ impl OpKind {
             OpKind::Read => "read",
             OpKind::ReadDetect => "read-detect",
             OpKind::Ingredient => "ingredient",
+            OpKind::ReadRemote => "read-remote",
+            OpKind::SignRemote => "sign-remote",
         }
     }
 }
@@ -126,7 +150,14 @@ impl Op {
         format!("{}/{}", self.kind.name(), self.asset.name)
     }
     fn streams(&self) -> usize {
-        if self.kind == OpKind::Sign { 2 } else { 1 }
+        if self.is_sign() { 2 } else { 1 }
+    }
+    fn is_sign(&self) -> bool {
+        matches!(self.kind, OpKind::Sign | OpKind::SignRemote)
+    }
+    /// format family used in violation keys (variants of a format share the handler, hence the root causes)
+    fn family(&self) -> &'static str {
+        self.asset.name.split('-').next().unwrap_or(self.asset.name)
     }
     fn matter(&self) -> &Vec<usize> {
         self.matter.get_or_init(|| {
@@ -174,11 +205,14 @@ fn reader_obs(r: c2pa::Result<Reader>, masked: bool) -> (String, String, String,
 
 fn execute(op: &Op, sc: &Script) -> Obs {
     match op.kind {
-        OpKind::Sign => {
+        OpKind::Sign | OpKind::SignRemote => {
             let mut src = FaultStream::new(op.asset.data.clone(), sc.plan(0));
             let mut dst = FaultStream::new(vec![], sc.plan(1));
             let r = par::guard(|| {
                 let mut b = sdk::builder(sdk::ctx(), DEF);
+                if op.kind == OpKind::SignRemote {
+                    b.set_remote_url(REMOTE_URL);
+                }
                 b.sign(signer(), op.asset.mime, &mut src, &mut dst).map(|_| ())
             });
             let logs = vec![src.snapshot(), dst.snapshot()];
@@ -189,15 +223,18 @@ fn execute(op: &Op, sc: &Script) -> Obs {
                 Ok(Ok(())) => {
                     // what did it write? judged by a clean reader over a plain cursor
                     let (c, d, s, codes) = par::guard(|| reader_obs(sdk::read(sdk::ctx(), op.asset.mime, &out), true)).unwrap_or_else(|p| ("PANIC".into(), p, "-".into(), vec![]));
-                    let detail = if c == "Ok" { d } else { format!("output unreadable: {c} {d}") };
+                    // the XMP packet of the output is part of the result (identifiers the source XMP supplies are
+                    // not UUID-shaped in the kit's XMP variants, so they are compared literally)
+                    let xmp = par::guard(|| c2pa::verif_hooks::read_xmp(op.asset.mime, &out)).unwrap_or(None).map(|x| gutil::norm_ids(&x)).unwrap_or_else(|| "none".into());
+                    let detail = if c == "Ok" { format!("{d} | output xmp: {xmp}") } else { format!("output unreadable: {c} {d}") };
                     Obs { class: "Ok".into(), detail, state: s, codes, logs, out_len: out.len() }
                 }
             }
         }
-        OpKind::Read | OpKind::ReadDetect => {
+        OpKind::Read | OpKind::ReadDetect | OpKind::ReadRemote => {
             let s = FaultStream::new(op.signed.clone(), sc.plan(0));
             let log = s.log();
-            let hint = if op.kind == OpKind::Read { op.asset.mime } else { "application/octet-stream" };
+            let hint = if op.kind == OpKind::ReadDetect { "application/octet-stream" } else { op.asset.mime };
             let r = par::guard(|| reader_obs(Reader::from_context(sdk::ctx()).with_stream(hint, s), false));
             let logs = vec![log.lock().unwrap_or_else(|e| e.into_inner()).clone()];
             match r {
@@ -258,8 +295,8 @@ fn collect_failures(v: &Value, in_failure: bool, out: &mut Vec<String>) {
 
 fn stream_name(op: &Op, s: usize) -> &'static str {
     match (op.kind, s) {
-        (OpKind::Sign, 0) => "src",
-        (OpKind::Sign, _) => "dst",
+        (OpKind::Sign | OpKind::SignRemote, 0) => "src",
+        (OpKind::Sign | OpKind::SignRemote, _) => "dst",
         _ => "in",
     }
 }
@@ -294,7 +331,7 @@ fn exercised(sc: &Script, o: &Obs) -> bool {
 
 /// Judge one run against the undisturbed one. Returns true when the scripted deviations were all reached.
 fn judge(run: &Run, op: &Op, base: &Obs, sc: &Script, o: &Obs) -> bool {
-    let fmt = op.asset.name;
+    let fmt = op.family();
     let opn = op.kind.name();
     let case = json!({"op": op.name(), "script": sc.json()});
     let reached = exercised(sc, o);
@@ -311,14 +348,14 @@ fn judge(run: &Run, op: &Op, base: &Obs, sc: &Script, o: &Obs) -> bool {
     }
     if !sc.has_fail() {
         // legitimate stream behaviour only: the result must be the undisturbed one
-        if o.class == "Ok" && o.detail == base.detail && o.state == base.state && o.out_len == base.out_len {
+        if o.class == base.class && o.detail == base.detail && o.state == base.state && o.out_len == base.out_len {
             run.outcome(if sc.chunk.is_some() { "chunked: same result" } else { "short transfer: same result" });
         } else {
             let got = if o.class == "Ok" { format!("Ok({})", o.state) } else { o.class.clone() };
             run.outcome("chunking changes result");
             LIM.violation(run, 
                 format!("chunking-changes-result op={opn} got={got} fmt={fmt} how={}", if sc.chunk.is_some() { "uniform-max-transfer".to_string() } else { how.clone() }),
-                format!("{}: with {} (no error injected) the result is {got} [{}] instead of the unchunked Ok({})", op.name(), sc.describe(), first_diff(&base.detail, &o.detail), base.state),
+                format!("{}: with {} (no error injected) the result is {got} [{}] instead of the unchunked {}", op.name(), sc.describe(), first_diff(&base.detail, &o.detail), if base.class == "Ok" { format!("Ok({})", base.state) } else { base.class.clone() }),
                 case,
             );
         }
@@ -334,7 +371,7 @@ fn judge(run: &Run, op: &Op, base: &Obs, sc: &Script, o: &Obs) -> bool {
     }
     // Ok after a sticky failure
     let undelivered: Vec<usize> = match op.kind {
-        OpKind::Sign => (0..op.asset.data.len()).filter(|p| !o.logs[0].delivered.get(*p).copied().unwrap_or(false)).collect(),
+        OpKind::Sign | OpKind::SignRemote => (0..op.asset.data.len()).filter(|p| !o.logs[0].delivered.get(*p).copied().unwrap_or(false)).collect(),
         _ => op.matter().iter().copied().filter(|p| !o.logs[0].delivered.get(*p).copied().unwrap_or(false)).collect(),
     };
     let same = o.detail == base.detail && o.state == base.state && o.out_len == base.out_len;
@@ -345,14 +382,14 @@ fn judge(run: &Run, op: &Op, base: &Obs, sc: &Script, o: &Obs) -> bool {
     } else {
         format!("{} byte(s) that matter were never delivered (first at offset {})", undelivered.len(), undelivered[0])
     };
-    if op.kind == OpKind::Sign && (!same || !undelivered.is_empty()) {
+    if op.is_sign() && (!same || !undelivered.is_empty()) {
         run.outcome("sign Ok after a failure: output differs / source not read");
         LIM.violation(run, 
-            format!("sign-ok-after-io-failure where={where_} readback={} code={code} fmt={fmt}", o.state),
+            format!("sign-ok-after-io-failure op={opn} where={where_} readback={} code={code} fmt={fmt}", o.state),
             format!("{}: {}; sign returns Ok; {delivery}; a clean read of what it wrote gives {} [{}]", op.name(), sc.describe(), o.state, first_diff(&base.detail, &o.detail)),
             case,
         );
-    } else if op.kind != OpKind::Sign && base.state != "Invalid" && o.state == "Invalid" {
+    } else if !op.is_sign() && base.state != "Invalid" && o.state == "Invalid" {
         run.outcome("I/O error hidden as a validation failure");
         LIM.violation(run, 
             format!("io-error-hidden-as-validation-failure op={opn} code={code} fmt={fmt}"),
@@ -393,18 +430,120 @@ fn first_diff(a: &str, b: &str) -> String {
     format!("reports differ at {i}: …{}… vs …{}…", cut(a), cut(b))
 }
 
-fn build_ops(run: &Run) -> Vec<Op> {
-    let formats = if run.tier.is_thorough() { assets::all() } else { assets::base() };
+fn replace_all_same_len(data: &[u8], from: &[u8], to: &[u8]) -> Option<Vec<u8>> {
+    assert_eq!(from.len(), to.len());
+    let mut out = data.to_vec();
+    let mut hit = false;
+    let mut i = 0;
+    while i + from.len() <= out.len() {
+        if &out[i..i + from.len()] == from {
+            out[i..i + from.len()].copy_from_slice(to);
+            hit = true;
+            i += from.len();
+        } else {
+            i += 1;
+        }
+    }
+    hit.then_some(out)
+}
+
+/// The asset with nothing but a remote-manifest reference (XMP written by the SDK's own handler, plain cursors).
+fn remote_only(a: &Asset) -> Option<Vec<u8>> {
+    if !c2pa::verif_hooks::supports_remote_ref(a.mime) {
+        return None;
+    }
+    par::guard(|| {
+        let mut b = sdk::builder(sdk::ctx(), DEF);
+        b.set_remote_url(REMOTE_URL);
+        b.set_no_embed(true);
+        sdk::sign(&mut b, signer(), a.mime, &a.data).ok().map(|(out, _)| out)
+    })
+    .unwrap_or(None)
+}
+
+/// XMP-bearing variants. jpeg/png: the kit recipes with an XMP packet that has several properties plus instance and
+/// document id. Other formats: the packet the SDK's handler embeds for a remote reference, with the reference property
+/// renamed (same length) and the ids replaced (same length) — an ordinary asset with XMP, no remote reference.
+fn xmp_variants(formats: &[Asset], notes: &mut Vec<String>) -> Vec<Asset> {
+    let ids = format!(" xmlns:xmpMM=\"http://ns.adobe.com/xap/1.0/mm/\" xmpMM:InstanceID=\"{XMP_IID}\" xmpMM:DocumentID=\"{XMP_DID}\"");
+    let packet = assets::xmp_packet(&ids);
     let mut v = vec![];
+    {
+        let base = assets::jpeg();
+        let mut seg = b"http://ns.adobe.com/xap/1.0/\0".to_vec();
+        seg.extend_from_slice(packet.as_bytes());
+        let mut d = base[..20].to_vec();
+        d.extend_from_slice(&[0xFF, 0xE1]);
+        d.extend_from_slice(&((seg.len() + 2) as u16).to_be_bytes());
+        d.extend(seg);
+        d.extend_from_slice(&base[20..]);
+        v.push(assets::a("jpeg-xmp", "image/jpeg", "jpg", d));
+    }
+    {
+        let base = assets::png();
+        let mut itxt = b"XML:com.adobe.xmp\0\0\0\0\0".to_vec();
+        itxt.extend_from_slice(packet.as_bytes());
+        let mut d = base[..33].to_vec();
+        d.extend(assets::png_chunk(b"iTXt", &itxt));
+        d.extend(assets::png_chunk(b"tEXt", b"Comment\0hello"));
+        d.extend_from_slice(&base[33..]);
+        v.push(assets::a("png-xmp", "image/png", "png", d));
+    }
     for a in formats {
-        let signed = sdk::sign_simple(signer(), a.mime, &a.data, &[]);
+        if a.name.contains('-') || matches!(a.name, "jpeg" | "png") {
+            continue;
+        }
+        let Some(r) = remote_only(a) else { continue };
+        let d = replace_all_same_len(&r, b"dcterms:provenance=", b"dcterms:provenancX=")
+            .and_then(|d| replace_all_same_len(&d, MIN_IID.as_bytes(), XMP_IID.as_bytes()))
+            .and_then(|d| replace_all_same_len(&d, MIN_DID.as_bytes(), XMP_DID.as_bytes()));
+        match d {
+            Some(d) => v.push(assets::a(Box::leak(format!("{}-xmp", a.name).into_boxed_str()), a.mime, a.ext, d)),
+            None => notes.push(format!("{}: the XMP packet embedded by the handler is not stored as plain text; no derived XMP variant", a.name)),
+        }
+    }
+    v
+}
+
+fn build_ops(run: &Run, notes: &mut Vec<String>) -> Vec<Op> {
+    let mut formats: Vec<Asset> = if run.tier.is_thorough() { assets::all() } else { assets::base() };
+    formats.retain(|a| !a.name.ends_with("-xmp")); // the kit's own XMP variants carry no ids; ours replace them
+    let variants = xmp_variants(&formats, notes);
+    let mut v = vec![];
+    for a in formats.iter().chain(variants.iter()) {
+        let is_variant = a.name.ends_with("-xmp");
+        let hand_built = matches!(a.name, "jpeg-xmp" | "png-xmp");
+        let signed = match par::guard(|| sdk::sign(&mut sdk::builder(sdk::ctx(), DEF), signer(), a.mime, &a.data)) {
+            Ok(Ok((out, _))) => out,
+            other => {
+                if is_variant && !hand_built {
+                    notes.push(format!("{}: derived XMP variant is not accepted for signing ({:?}); dropped", a.name, other.map(|r| r.map(|_| ()))));
+                    continue;
+                }
+                kit::ev::machinery(format!("C35 seed {} cannot be signed: {:?}", a.name, other.map(|r| r.map(|_| ()))));
+            }
+        };
         match sdk::read(sdk::ctx(), a.mime, &signed) {
             Ok(r) if sdk::state_name(r.validation_state()) != "Invalid" => {}
             other => kit::ev::machinery(format!("C35 seed {} does not read back valid: {:?}", a.name, other.map(|r| r.validation_state()))),
         }
         let matter = std::sync::Arc::new(OnceLock::new());
-        for kind in [OpKind::Sign, OpKind::Read, OpKind::Ingredient, OpKind::ReadDetect] {
-            v.push(Op { kind, asset: a.clone(), signed: signed.clone(), matter: matter.clone() });
+        let kinds: &[OpKind] = if !is_variant {
+            &[OpKind::Sign, OpKind::Read, OpKind::Ingredient, OpKind::ReadDetect]
+        } else if hand_built {
+            &[OpKind::Sign, OpKind::SignRemote, OpKind::Read, OpKind::Ingredient]
+        } else {
+            &[OpKind::Sign, OpKind::SignRemote, OpKind::Ingredient]
+        };
+        for kind in kinds {
+            v.push(Op { kind: *kind, asset: a.clone(), signed: signed.clone(), matter: matter.clone() });
+        }
+        // remote-reference-only form (of the plain asset and of the hand-built XMP variants: the latter makes the
+        // handler UPDATE an existing packet)
+        if !is_variant || hand_built {
+            if let Some(r) = remote_only(a) {
+                v.push(Op { kind: OpKind::ReadRemote, asset: a.clone(), signed: r, matter: std::sync::Arc::new(OnceLock::new()) });
+            }
         }
     }
     v
@@ -412,14 +551,17 @@ fn build_ops(run: &Run) -> Vec<Op> {
 
 pub fn run(run: &Run, replay: Option<&Value>) {
     run.rule(
-        "operations = {sign, read, read with a neutral format hint (detection from bytes), add_ingredient_from_stream} x kit formats. Every stream call of the SDK is a numbered choice point. \
+        "operations = {sign, read, read with a neutral format hint (detection from bytes), add_ingredient_from_stream} x kit formats and their XMP-bearing variants, \
+         plus the operations that consult the XMP: read of a remote-reference-only asset (undisturbed outcome Err(RemoteManifestUrl)), sign / sign with a remote URL of a source whose XMP supplies \
+         instance and document id (the ids and the output's XMP packet are part of the compared result). Every stream call of the SDK is a numbered choice point. \
          Enumerated: uniform maximum transfer n in {1,2,3,7,64}; for EVERY call k of the undisturbed run a 1-byte short transfer (where >= 2 bytes would move) and a sticky I/O error; \
          thorough adds every pair of deviations on the two smallest formats. non-trivial = runs whose scripted deviation was actually reached / actually shortened a transfer, distinct by (operation, script).",
     );
     run.assume("bytes that matter for a signed asset = positions whose single-byte alteration makes a clean read not Valid (exhaustive flips with plain cursors); for the source of sign = every byte");
     run.assume("a sticky failure stands for a device that stays broken; one-shot errors are not enumerated");
     run.assume("the injected error is io::ErrorKind::Other (not Interrupted, which std retries)");
-    let ops = build_ops(run);
+    let mut notes: Vec<String> = vec![];
+    let ops = build_ops(run, &mut notes);
 
     if let Some(c) = replay {
         let name = c["op"].as_str().unwrap_or("");
@@ -459,6 +601,25 @@ pub fn run(run: &Run, replay: Option<&Value>) {
         if b1.class != b2.class || b1.detail != b2.detail || !same_calls {
             kit::ev::machinery(format!("C35: undisturbed {} is not deterministic ({} vs {}; {})", op.name(), b1.class, b2.class, first_diff(&b1.detail, &b2.detail)));
         }
+        if op.kind == OpKind::ReadRemote {
+            // in this operation's domain only when the undisturbed read reports the reference
+            if b1.class == "Err(RemoteManifestUrl)" && b1.detail.contains(REMOTE_URL) {
+                bases.push(Some(b1));
+            } else {
+                skipped.push(format!("{} (undisturbed: {})", op.name(), b1.class));
+                bases.push(None);
+            }
+            continue;
+        }
+        if op.is_sign() && op.asset.name.ends_with("-xmp") && b1.class == "Ok" && !b1.detail.contains(XMP_IID) {
+            // the operation must really take the instance id from the source XMP, or the variant proves nothing
+            if matches!(op.asset.name, "jpeg-xmp" | "png-xmp") {
+                kit::ev::machinery(format!("C35 seed: {} does not carry the instance id of the source XMP into its result", op.name()));
+            }
+            skipped.push(format!("{} (instance id of the source XMP not used)", op.name()));
+            bases.push(None);
+            continue;
+        }
         if op.kind == OpKind::ReadDetect && (b1.class != "Ok" || b1.state == "Invalid") {
             // formats the SDK cannot detect from their leading bytes are outside this operation's domain
             skipped.push(op.name());
@@ -470,7 +631,10 @@ pub fn run(run: &Run, replay: Option<&Value>) {
         }
         bases.push(Some(b1));
     }
-    run.extra("read_detect_not_applicable", json!(skipped));
+    run.extra("operations_not_applicable", json!(skipped));
+    run.extra("xmp_variant_notes", json!(notes));
+    run.extra("xmp_variants", json!(ops.iter().filter(|o| o.kind == OpKind::Sign && o.asset.name.ends_with("-xmp")).map(|o| o.asset.name).collect::<Vec<_>>()));
+    run.extra("read_remote_formats", json!(ops.iter().enumerate().filter(|(i, o)| o.kind == OpKind::ReadRemote && bases[*i].is_some()).map(|(_, o)| o.asset.name).collect::<Vec<_>>()));
     let live: Vec<usize> = (0..ops.len()).filter(|i| bases[*i].is_some()).collect();
     for i in live.iter().take(3) {
         let b = bases[*i].as_ref().unwrap();
@@ -522,7 +686,7 @@ pub fn run(run: &Run, replay: Option<&Value>) {
             kit::ev::machinery(format!("C35: {} diverged before the scripted deviation [{}] (undisturbed prefix not reproduced)", op.name(), sc.describe()));
         }
         run.nontrivial(format!("{}|{}", op.name(), sc.describe()));
-        if want_level2 && two_smallest.contains(op.asset.name) && op.kind != OpKind::ReadDetect {
+        if want_level2 && two_smallest.contains(op.asset.name) && !matches!(op.kind, OpKind::ReadDetect | OpKind::ReadRemote | OpKind::SignRemote) {
             level1.lock().unwrap().push((*i, sc.clone(), o.logs.clone()));
         }
     });
